@@ -1,2 +1,2 @@
-(* C01 uses the operator correspondence of OpsCases.v *)
-From NeatModel Require Export OpsCases.
+(* C01 uses the operator correspondence of OpsCases.v and the direct insertion correspondence *)
+From NeatModel Require Export OpsCases InsertCases.
